@@ -367,11 +367,12 @@ Fixpoint closure (nested : bool) (doc : tsdoc) (fuel : nat) (seen : list str) : 
 Definition reaches_self (nested : bool) (doc : tsdoc) (d : directivedef) : bool :=
   existsb (str_eqb (iname (dd_name d)))
           (closure nested doc (length doc) (add_new [] (dir_succ nested doc d))).
-Definition ok_directive_recursive (doc : tsdoc) : bool :=
-  forallb (fun d => negb (reaches_self true doc d)) (directives_of doc).
+Definition ok_directive_recursive_gen (nested : bool) (doc : tsdoc) : bool :=
+  forallb (fun d => negb (reaches_self nested doc d)) (directives_of doc).
+(** the specification's reading *)
+Definition ok_directive_recursive (doc : tsdoc) : bool := ok_directive_recursive_gen true doc.
 (** the same with nitrogql's one-level reading of "referencing a Type" *)
-Definition ok_directive_recursive_shallow (doc : tsdoc) : bool :=
-  forallb (fun d => negb (reaches_self false doc d)) (directives_of doc).
+Definition ok_directive_recursive_shallow (doc : tsdoc) : bool := ok_directive_recursive_gen false doc.
 
 (** * The implemented rules, by name *)
 Inductive rule :=
@@ -381,7 +382,10 @@ Inductive rule :=
 | RUnionMemberNotObject | RDirectiveUnknown | RDirectiveMisplaced | RDirectiveRepeated | RDirectiveArgs
 | RDirectiveRecursive.
 
-Definition rule_ok (r : rule) (doc : tsdoc) : bool :=
+(** [spec] = true: every rule as the specification reads it.  [spec] = false: two rules in the scope the current
+    implementation gives them (Int literals of any size; directive self-reference through the argument's own named
+    type only) -- see C05_sound_directive_args_int_range_refuted, C05_sound_directive_recursive_nested_refuted. *)
+Definition rule_ok_gen (spec : bool) (r : rule) (doc : tsdoc) : bool :=
   match r with
   | RReserved => ok_reserved doc | RDupField => ok_dup_field doc | RDupArg => ok_dup_arg doc
   | RDupEnumValue => ok_dup_enum_value doc | RDupUnionMember => ok_dup_union_member doc
@@ -393,21 +397,15 @@ Definition rule_ok (r : rule) (doc : tsdoc) : bool :=
   | RIfaceArgType => ok_iface_arg_type doc | RIfaceExtraRequiredArg => ok_iface_extra_required_arg doc
   | RUnionMemberNotObject => ok_union_member_not_object doc | RDirectiveUnknown => ok_directive_unknown doc
   | RDirectiveMisplaced => ok_directive_misplaced doc | RDirectiveRepeated => ok_directive_repeated doc
-  | RDirectiveArgs => ok_directive_args doc | RDirectiveRecursive => ok_directive_recursive doc
+  | RDirectiveArgs => ok_directive_args_gen spec doc | RDirectiveRecursive => ok_directive_recursive_gen spec doc
   end.
+Definition rule_ok (r : rule) (doc : tsdoc) : bool := rule_ok_gen true r doc.
 Definition all_rules : list rule :=
   [RReserved; RDupField; RDupArg; RDupEnumValue; RDupUnionMember; RDupInputField; RUnknownType; RInputInOutput;
    ROutputInInput; RNotInterface; RImplementsSelf; RMissingTransitive; RIfaceFieldMissing; RIfaceFieldType;
    RIfaceArgMissing; RIfaceArgType; RIfaceExtraRequiredArg; RUnionMemberNotObject; RDirectiveUnknown;
    RDirectiveMisplaced; RDirectiveRepeated; RDirectiveArgs; RDirectiveRecursive].
-(** the rules as the current implementation enforces them: two of them only in part
-    (see C05_sound_directive_args_int_range_refuted, C05_sound_directive_recursive_nested_refuted) *)
-Definition rule_ok_impl (r : rule) (doc : tsdoc) : bool :=
-  match r with
-  | RDirectiveArgs => ok_directive_args_lenient doc
-  | RDirectiveRecursive => ok_directive_recursive_shallow doc
-  | _ => rule_ok r doc
-  end.
+Definition rule_ok_impl (r : rule) (doc : tsdoc) : bool := rule_ok_gen false r doc.
 
 Definition violated (doc : tsdoc) : list rule := filter (fun r => negb (rule_ok r doc)) all_rules.
 
@@ -442,6 +440,9 @@ Definition ok_app_args_nonempty (doc : tsdoc) : bool :=
   forallb (fun la => forallb (fun a : directive =>
              match dir_args a with Some x => negb (match args_list x with [] => true | _ => false end) | None => true end)
              (snd la)) (all_apps doc).
+
+(** well-formedness premises under which the rule booleans are read *)
+Definition wf_doc (doc : tsdoc) : bool := unique_names doc && ok_app_arg_unique doc && ok_app_args_nonempty doc.
 
 Definition spec_valid (doc : tsdoc) : bool :=
   unique_names doc && forallb (fun r => rule_ok r doc) all_rules &&
